@@ -1052,7 +1052,7 @@ func writeEvidence(cfg checkCfg, seed uint64, st *Stats, batches int, wall float
 var checkConfigs = map[string]checkCfg{
 	"C02": {
 		prop: "C02", engine: "faultsweep", level: "fault_enumeration", checksPerBatch: 1, minBatches: 1, exhaustive: true,
-		rule: "the grid (built-in function discovered on a fresh global object, call or construct) x (one varying position among receiver / argument 1 / argument 2) x 71 value kinds (numeric extremes, hostile strings, wrappers, frozen/sealed/non-extensible/sparse/array-like/prototype-less objects, arguments, bound functions, regexps with negative lastIndex, Go-backed slices/maps/structs/arrays/functions, trap objects and trap functions whose valueOf/toString/toJSON/getters/body count invocations) x faults {none, throw at the 1st/2nd/3rd trap invocation, host-function panic, interrupt panic at the 1st/2nd trap invocation, stack depth limit 3..6} is enumerated completely (quick adds all kind pairs for a seed-selected sixteenth of the surface, thorough for all of it), plus: every own/inherited property of an instance of each kind read/described/written/deleted (also through an inheriting object); every operator form on each kind; uncaught throws and the Value/Object accessors on a value of each kind under every fault; all 3-step histories over 20 array/object operations; all 729 property-descriptor shapes applied to a property in each of the descriptor holders (state classes and exotic / Go-backed holders) and then observed from script, through the Go accessors and on a Copy(); all two-step histories of 11 operations x 9 keys on an arguments object for every declared/passed/strict shape; the Go API on hostile runtime states and host functions entered at rest; token-truncated special strings through every built-in; self-recursive programs under limits 2..200; JSON graphs cyclic only through a substituted value, 11 nesting kinds at 5000 levels, and allocation / unaccounted-recursion / deep-nesting probes (known findings) in memory-capped child processes; evaluations = cells executed. distinct_nontrivial = number of grid slices executed completely.",
+		rule: "the grid (built-in function discovered on a fresh global object, call or construct) x (one varying position among receiver / argument 1 / argument 2) x 100 value kinds (numeric extremes, hostile strings, wrappers, frozen/sealed/non-extensible/sparse/prototype-less objects, array-likes whose length is Infinity, NaN, fractional or a string, arguments, bound functions, regexps with a negative lastIndex or one beyond the subject, Go-backed slices/maps/structs/arrays/functions, trap objects and trap functions whose valueOf/toString/toJSON/getters/body count invocations) x faults {none, throw at the 1st/2nd/3rd trap invocation, host-function panic, interrupt panic at the 1st/2nd trap invocation, stack depth limit 3..6} is enumerated completely (quick adds all kind pairs for a seed-selected sixteenth of the surface, thorough for all of it), plus: every own/inherited property of an instance of each kind read/described/written/deleted (also through an inheriting object); every operator form on each kind; uncaught throws and the Value/Object accessors on a value of each kind under every fault; all 3-step histories over 20 array/object operations; all 729 property-descriptor shapes applied to a property in each of the descriptor holders (state classes and exotic / Go-backed holders) and then observed from script, through the Go accessors and on a Copy(); all two-step histories of 11 operations x 9 keys on an arguments object for every declared/passed/strict shape; the Go API on hostile runtime states and host functions entered at rest; token-truncated special strings through every built-in; self-recursive programs under limits 2..200; JSON graphs cyclic only through a substituted value, 11 nesting kinds at 5000 levels, and allocation / unaccounted-recursion / deep-nesting probes (known findings) in memory-capped child processes; evaluations = cells executed. distinct_nontrivial = number of grid slices executed completely.",
 		assumptions: []string{
 			"claimed slice only: fault containment on a finite grid of value kinds, states and histories; totality on arbitrary source text and on values outside these kinds is outside deterministic simulation",
 			"nothing is asserted about which value or error comes back, only that the API call returns, that only injected panics escape, and that the runtime is at rest and usable afterwards",
